@@ -27,7 +27,9 @@ open Drv_tmpl
      D44 the end tag opener of a script / style element inside that element's start tag in static text; failing
          class script / rawtext;
      D13 the four characters that open an HTML comment inside a script element body in static text; failing
-         class = script data *)
+         class = script data
+     D48 an attribute name split over several text nodes by actions / control structures (see finding_d48);
+         failing class = an attribute value, a code-loading URL, a javascript URL *)
 
 (* ---------------------------------------------------------------- template text scanner *)
 type piece = Text of string | Act of string
@@ -323,6 +325,8 @@ let class_name = function
   | V.PScript -> "script_body" | V.PRawtext _ -> "style_body" | V.PComment -> "comment"
   | V.PAttrValue (_, a, _) -> "attribute_" ^ string_of_bytes a | _ -> "other"
 
+let finding_d48 (inf : info) : bool = Drv_tmpl.split_name_finding inf.text
+
 let tag_finding (l : (string * bool) list) : string =
   match List.find_opt snd l with Some (d, _) -> "\tfinding=" ^ d | None -> ""
 
@@ -351,14 +355,15 @@ let () =
             specfail id (Printf.sprintf "untrusted_bytes_in_code_position:%s@%d%s" (class_name cls) (int_of_n off)
                            (tag_finding [("D13", cls = V.PScript && finding_d13 inf);
                                          ("D44", (match cls with V.PScript | V.PRawtext _ -> finding_d44 inf | _ -> false));
-                                         ("D1", finding_d1 inf)]))
+                                         ("D1", finding_d1 inf);
+                                         ("D48", (match cls with V.PAttrValue _ -> finding_d48 inf | _ -> false))]))
           | None ->
             match V.c02_origin_clause markers out with
             | Some (e, a) ->
               let inf = analyse text in
               let e = string_of_bytes e and a = string_of_bytes a in
               specfail id (Printf.sprintf "untrusted_bytes_in_origin_of_code_loading_url:%s.%s%s" e a
-                             (tag_finding [("D3", e = "link" && a = "href" && finding_d3 inf); ("D4", finding_d4 inf a); ("D1", finding_d1 inf)]))
+                             (tag_finding [("D3", e = "link" && a = "href" && finding_d3 inf); ("D4", finding_d4 inf a); ("D1", finding_d1 inf); ("D48", finding_d48 inf)]))
             | None ->
               match correspondence text wire outcome out with
               | Some m -> mismatch id m
@@ -380,7 +385,7 @@ let () =
           let inf = analyse text in
           let e = string_of_bytes e and a = string_of_bytes a in
           specfail id (Printf.sprintf "javascript_url_in:%s.%s%s" e a
-                         (tag_finding [("D2", finding_d2 inf a); ("D4", finding_d4 inf a); ("D1", finding_d1 inf)]))
+                         (tag_finding [("D2", finding_d2 inf a); ("D4", finding_d4 inf a); ("D1", finding_d1 inf); ("D48", finding_d48 inf)]))
         | None ->
           match correspondence text wire outcome out with
           | Some m -> mismatch id m
